@@ -94,8 +94,21 @@ pub enum Op {
         #[serde(default)]
         by_temp: bool,
     },
-    RemoveData { set: u16, pick: u16, strict: bool },
-    RemoveKey { set: u16, pick: u16, strict: bool },
+    RemoveData {
+        set: u16,
+        pick: u16,
+        strict: bool,
+        /// address set and item by (public or temporary) id instead of by handle
+        #[serde(default)]
+        by_id: bool,
+    },
+    RemoveKey {
+        set: u16,
+        pick: u16,
+        strict: bool,
+        #[serde(default)]
+        by_id: bool,
+    },
     RemoveResource {
         pick: u16,
         by_id: bool,
@@ -109,6 +122,8 @@ pub enum Op {
         by_temp: bool,
     },
     ProtectText { mode: u8 },
+    /// performance-only: must not change any answer
+    ShrinkToFit,
 }
 
 impl Op {
@@ -346,19 +361,20 @@ pub fn op_strategy(cfg: &HistCfg) -> BoxedStrategy<Op> {
             target,
             data,
         });
-    prop_oneof![
-        4 => (text_strategy(cfg.text_max), 0u8..6).prop_map(|(text, sfx)| Op::AddResource { text, sfx }),
-        2 => (0u8..6, proptest::collection::vec(dspec(h), 0..=4)).prop_map(|(sfx, data)| Op::AddDataset { sfx, data }),
-        2 => (idx(), dspec(h)).prop_map(|(set, d)| Op::InsertData { set, d }),
-        16 => annotate,
-        rw => (idx(), any::<bool>(), proptest::bool::weighted(0.15)).prop_map(|(pick, by_id, by_temp)| Op::RemoveAnnotation { pick, by_id, by_temp }),
-        rw => (idx(), idx(), any::<bool>()).prop_map(|(set, pick, strict)| Op::RemoveData { set, pick, strict }),
-        rw / 2 + 1 => (idx(), idx(), any::<bool>()).prop_map(|(set, pick, strict)| Op::RemoveKey { set, pick, strict }),
-        rw / 4 + 1 => (idx(), any::<bool>(), proptest::bool::weighted(0.15)).prop_map(|(pick, by_id, by_temp)| Op::RemoveResource { pick, by_id, by_temp }),
-        rw / 4 + 1 => (idx(), any::<bool>(), proptest::bool::weighted(0.15)).prop_map(|(pick, by_id, by_temp)| Op::RemoveDataset { pick, by_id, by_temp }),
-        cfg.protect_weight => (0u8..4).prop_map(|mode| Op::ProtectText { mode }),
-    ]
-    .boxed()
+    let arms: Vec<(u32, BoxedStrategy<Op>)> = vec![
+        (4, ((text_strategy(cfg.text_max), 0u8..6).prop_map(|(text, sfx)| Op::AddResource { text, sfx })).boxed()),
+        (2, ((0u8..6, proptest::collection::vec(dspec(h), 0..=4)).prop_map(|(sfx, data)| Op::AddDataset { sfx, data })).boxed()),
+        (2, ((idx(), dspec(h)).prop_map(|(set, d)| Op::InsertData { set, d })).boxed()),
+        (16, (annotate).boxed()),
+        (rw, ((idx(), any::<bool>(), proptest::bool::weighted(0.15)).prop_map(|(pick, by_id, by_temp)| Op::RemoveAnnotation { pick, by_id, by_temp })).boxed()),
+        (rw, ((idx(), idx(), any::<bool>(), proptest::bool::weighted(0.3)).prop_map(|(set, pick, strict, by_id)| Op::RemoveData { set, pick, strict, by_id })).boxed()),
+        (rw / 2 + 1, ((idx(), idx(), any::<bool>(), proptest::bool::weighted(0.3)).prop_map(|(set, pick, strict, by_id)| Op::RemoveKey { set, pick, strict, by_id })).boxed()),
+        (1, (Just(Op::ShrinkToFit)).boxed()),
+        (rw / 4 + 1, ((idx(), any::<bool>(), proptest::bool::weighted(0.15)).prop_map(|(pick, by_id, by_temp)| Op::RemoveResource { pick, by_id, by_temp })).boxed()),
+        (rw / 4 + 1, ((idx(), any::<bool>(), proptest::bool::weighted(0.15)).prop_map(|(pick, by_id, by_temp)| Op::RemoveDataset { pick, by_id, by_temp })).boxed()),
+        (cfg.protect_weight, ((0u8..4).prop_map(|mode| Op::ProtectText { mode })).boxed()),
+    ];
+    proptest::strategy::Union::new_weighted(arms.into_iter().filter(|(w, _)| *w > 0).collect()).boxed()
 }
 
 pub fn history_strategy(cfg: HistCfg) -> BoxedStrategy<History> {
@@ -917,7 +933,14 @@ impl Machine {
                 self.finish_removal(&mut step, res, doomed, BTreeSet::new(), had);
                 step
             }
-            Op::RemoveData { set, pick: p, strict } => {
+            Op::ShrinkToFit => {
+                let mut step = Step::new("shrink_to_fit");
+                if let Err(p) = catch(|| self.store.shrink_to_fit(true)) {
+                    step.panic = Some(p);
+                }
+                step
+            }
+            Op::RemoveData { set, pick: p, strict, by_id } => {
                 let live = self.model.live_sets();
                 if live.is_empty() {
                     return Step::skip("remove_data", "no dataset");
@@ -941,13 +964,20 @@ impl Machine {
                 let sh = AnnotationDataSetHandle::new(s);
                 let dh = AnnotationDataHandle::new(d);
                 let strict_ = *strict;
-                let res = catch(|| self.store.remove_data(sh, dh, strict_));
+                let res = if *by_id {
+                    step.labels.push("removal_by_id_strings");
+                    let sid = self.model.set(s).id.clone();
+                    let did = self.model.set(s).data[d].as_ref().unwrap().id.clone().unwrap_or_else(|| format!("!D{}", d));
+                    catch(|| self.store.remove_data(sid.as_str(), did.as_str(), strict_))
+                } else {
+                    catch(|| self.store.remove_data(sh, dh, strict_))
+                };
                 let (doomed, modified) = self.model.remove_data(s, d, *strict);
                 let had = !doomed.is_empty() || !modified.is_empty();
                 self.finish_removal(&mut step, res, doomed, modified, had);
                 step
             }
-            Op::RemoveKey { set, pick: p, strict } => {
+            Op::RemoveKey { set, pick: p, strict, by_id } => {
                 let live = self.model.live_sets();
                 if live.is_empty() {
                     return Step::skip("remove_key", "no dataset");
@@ -965,7 +995,14 @@ impl Machine {
                 let sh = AnnotationDataSetHandle::new(s);
                 let kh = DataKeyHandle::new(k);
                 let strict_ = *strict;
-                let res = catch(|| self.store.remove_key(sh, kh, strict_));
+                let res = if *by_id {
+                    step.labels.push("removal_by_id_strings");
+                    let sid = self.model.set(s).id.clone();
+                    let kid = self.model.set(s).keys[k].clone().unwrap();
+                    catch(|| self.store.remove_key(sid.as_str(), kid.as_str(), strict_))
+                } else {
+                    catch(|| self.store.remove_key(sh, kh, strict_))
+                };
                 let (doomed, modified) = self.model.remove_key(s, k, *strict);
                 let had = !doomed.is_empty() || !modified.is_empty();
                 self.finish_removal(&mut step, res, doomed, modified, had);
